@@ -69,12 +69,30 @@ type Sched struct {
 	Sites   map[string]int
 	Dead    bool
 	Stalled string
+	// pendingW counts, per mutex (receiver text of the call site), the tasks that have
+	// asked for the write lock and do not hold it yet. sync.RWMutex lets a blocked Lock
+	// exclude new readers; trying RLock while a writer is pending would hide exactly the
+	// deadlocks that rule produces (a read lock taken twice by one goroutine).
+	pendingW map[string]int
 }
 
 // Strategy picks the next task among the runnable ones.
 type Strategy func(step int, runnable []int, s *Sched) int
 
-func NewSched() *Sched { return &Sched{byGID: map[int64]*task{}, Sites: map[string]int{}} }
+func NewSched() *Sched {
+	return &Sched{byGID: map[int64]*task{}, Sites: map[string]int{}, pendingW: map[string]int{}}
+}
+
+// lockSite splits an instrumented lock site ("snapshot.go:222 _m.RLock") into the mutex
+// expression and whether the write lock is requested.
+func lockSite(site string) (mutex string, write bool) {
+	call := site[strings.LastIndexByte(site, ' ')+1:]
+	i := strings.LastIndexByte(call, '.')
+	if i < 0 {
+		return call, true
+	}
+	return call[:i], call[i+1:] != "RLock"
+}
 
 func (s *Sched) cur() *task {
 	s.mu.Lock()
@@ -101,9 +119,23 @@ func (s *Sched) Install() {
 			lock()
 			return
 		}
+		mtx, write := lockSite(site)
+		if write {
+			s.mu.Lock()
+			s.pendingW[mtx]++
+			s.mu.Unlock()
+		}
 		for {
 			s.parkHere(t, stReady, site)
-			if try() {
+			s.mu.Lock()
+			blocked := !write && s.pendingW[mtx] > 0
+			s.mu.Unlock()
+			if !blocked && try() {
+				if write {
+					s.mu.Lock()
+					s.pendingW[mtx]--
+					s.mu.Unlock()
+				}
 				return
 			}
 			s.parkHere(t, stLockWait, site)
